@@ -63,6 +63,36 @@ def written_targets(body):
     return names, attrs
 
 
+def loop_temporaries(fn, loop, names):
+    """names written by the loop body that are plain block-local temporaries: every occurrence lies in one statement list inside the
+    loop body whose first statement mentioning the name is a plain assignment to it (not reading it), and the name is never mentioned
+    outside the loop body in the enclosing function.  Such a name carries nothing across iterations or out of the loop, so it needs no
+    place in the contract's frame."""
+    def mentions(node, nm):
+        return [n for n in ast.walk(node) if isinstance(n, ast.Name) and n.id == nm]
+    def blocks(stmts):
+        yield stmts
+        for st_ in stmts:
+            for fld in ('body', 'orelse', 'finalbody'):
+                sub = getattr(st_, fld, None)
+                if isinstance(sub, list) and sub and isinstance(sub[0], ast.stmt): yield from blocks(sub)
+            for h in getattr(st_, 'handlers', []) or []: yield from blocks(h.body)
+    temps = set()
+    inside = {id(n) for st_ in loop.body for n in ast.walk(st_)}
+    for nm in names:
+        if [n for n in ast.walk(fn) if isinstance(n, ast.Name) and n.id == nm and id(n) not in inside]: continue
+        total = sum(len(mentions(st_, nm)) for st_ in loop.body)
+        for blk in blocks(loop.body):
+            if sum(len(mentions(st_, nm)) for st_ in blk) != total: continue
+            first = next(st_ for st_ in blk if mentions(st_, nm))
+            if isinstance(first, ast.Assign) and not mentions(first.value, nm) and \
+               all(isinstance(t, ast.Name) or not mentions(t, nm) or all(isinstance(e, ast.Name) for e in ast.walk(t) if isinstance(e, (ast.Name, ast.Tuple, ast.List)) or True) for t in first.targets) and \
+               any(isinstance(e, ast.Name) and e.id == nm and isinstance(e.ctx, ast.Store) for t in first.targets for e in ast.walk(t)):
+                temps.add(nm)
+        # (the innermost qualifying block decides; outer blocks containing it qualify only if their first mention is that assignment too)
+    return temps
+
+
 def make_transform(funcs):
     """funcs: {(qualified function name, loop ordinal): key}.  returns tree -> tree"""
     class Tr(ast.NodeTransformer):
@@ -74,6 +104,7 @@ def make_transform(funcs):
             qn = '.'.join(self.stack)
             if any(f == qn for (f, _) in funcs):
                 counter = [0]
+                self._fn = node
                 node.body = self._cut_block(node.body, qn, counter)
             else:
                 self.generic_visit(node)
@@ -113,6 +144,7 @@ def make_transform(funcs):
 
         def _cut_while(self, w, key):
             names, attrs = written_targets(w.body)
+            names -= loop_temporaries(self._fn, w, names)
             k = ast.Constant(value=key)
             frame = ast.Call(func=ast.Name(id='locals', ctx=ast.Load()), args=[], keywords=[])
             disp = lambda m: ast.Attribute(value=ast.Name(id='__pvc_loop__', ctx=ast.Load()), attr=m, ctx=ast.Load())
@@ -132,6 +164,7 @@ def make_transform(funcs):
             """for v in it: B   ->   enter; havoc(names + loop variable); if cond(): once(B) else-back
             (the contract's cond() models `iterator not exhausted`; the loop variable is havoc'd by the contract)"""
             names, attrs = written_targets(w.body)
+            names -= loop_temporaries(self._fn, w, names)
             for e in ast.walk(w.target):
                 if isinstance(e, ast.Name): names.add(e.id)
             k = ast.Constant(value=key)
